@@ -146,10 +146,10 @@ theorem vstep_removeConsolidate (f : Forest) (prev next : Option Nat)
         | some ns => exact (vstep_setText_prefix f (hT p rfl) hp ns).trans (vstep_spliceOut _ n)
     · exact VStep.refl f
 
-theorem vstep_addConsolidate (f : Forest) (node : Nat) (prev next : Option Nat)
+theorem vstep_addConsolidateOld (f : Forest) (node : Nat) (prev next : Option Nat)
     (hTp : ∀ p, prev = some p → T p) (hTn : ∀ n, next = some n → T n) :
-    VStep S T f (f.addConsolidate node prev next).1 := by
-  unfold addConsolidate
+    VStep S T f (f.addConsolidateOld node prev next).1 := by
+  unfold addConsolidateOld
   split
   · exact VStep.refl f
   · cases f.textOf node with
@@ -175,6 +175,13 @@ theorem vstep_addConsolidate (f : Forest) (node : Nat) (prev next : Option Nat)
         | none => exact viaNext
       | none => exact viaNext
 
+/-- eccbbb7: the neighbours that may change are the ones the helper works with (`selfPrev`,
+    `selfNext`: the node's own sibling where the neighbour handed in is the node itself). -/
+theorem vstep_addConsolidate (f : Forest) (node : Nat) (prev next : Option Nat)
+    (hTp : ∀ p, f.selfPrev node prev = some p → T p) (hTn : ∀ n, f.selfNext node next = some n → T n) :
+    VStep S T f (f.addConsolidate node prev next).1 := by
+  rw [addConsolidate_eq_old]; exact vstep_addConsolidateOld f node _ _ hTp hTn
+
 theorem vstep_res {f g : Forest} {b : Bool} {r1 r2 : Res} (h : VStep S T f g) :
     VStep S T f (if b = true then (g, r1) else (g, r2)).1 := by split <;> exact h
 
@@ -185,7 +192,8 @@ def afterOldSite (f : Forest) (c : Nat) : Forest :=
   (f.removeConsolidate (f.prevSibling c) (f.nextSibling c)).1
 
 theorem vstep_append (f : Forest) (p c : Nat) (hT1 : ∀ q, f.prevSibling c = some q → T q)
-    (hT2 : ∀ q, (f.afterOldSite c).lastChild p = some q → T q) : VStep S T f (f.append p c).1 := by
+    (hT2 : ∀ q, (f.afterOldSite c).selfPrev c ((f.afterOldSite c).lastChild p) = some q → T q) :
+    VStep S T f (f.append p c).1 := by
   unfold append
   split
   · exact VStep.refl f
@@ -197,7 +205,8 @@ theorem vstep_append (f : Forest) (p c : Nat) (hT1 : ∀ q, f.prevSibling c = so
   | mk f1 b1 =>
     rw [hr] at h1 hT2
     simp only at hT2 ⊢
-    have h2 := vstep_addConsolidate (S := S) f1 c (f1.lastChild p) none hT2 (fun _ h => by cases h)
+    have h2 := vstep_addConsolidate (S := S) f1 c (f1.lastChild p) none hT2
+      (fun _ h => by rw [selfNext_none] at h; cases h)
     cases ha : f1.addConsolidate c (f1.lastChild p) none with
     | mk f2 cc =>
       rw [ha] at h2
@@ -226,7 +235,8 @@ theorem vstep_mapPlace (f : Forest) (k : MapKind) (parent node : Nat) :
     | mk f' okb => rw [hc] at this; exact vstep_res this
 
 theorem vstep_prepend (f : Forest) (p c : Nat) (hT1 : ∀ q, f.prevSibling c = some q → T q)
-    (hT2 : ∀ q, (f.afterOldSite c).firstChild p = some q → T q) : VStep S T f (f.prepend p c).1 := by
+    (hT2 : ∀ q, (f.afterOldSite c).selfNext c ((f.afterOldSite c).firstChild p) = some q → T q) :
+    VStep S T f (f.prepend p c).1 := by
   unfold prepend
   split
   · exact VStep.refl f
@@ -238,7 +248,8 @@ theorem vstep_prepend (f : Forest) (p c : Nat) (hT1 : ∀ q, f.prevSibling c = s
   | mk f1 b1 =>
     rw [hr] at h1 hT2
     simp only at hT2 ⊢
-    have h2 := vstep_addConsolidate (S := S) f1 c none (f1.firstChild p) (fun _ h => by cases h) hT2
+    have h2 := vstep_addConsolidate (S := S) f1 c none (f1.firstChild p)
+      (fun _ h => by rw [selfPrev_none] at h; cases h) hT2
     cases ha : f1.addConsolidate c none (f1.firstChild p) with
     | mk f2 cc =>
       rw [ha] at h2
@@ -265,7 +276,9 @@ def insertAfterRef (f : Forest) (ref c : Nat) : Nat :=
 
 theorem vstep_insertAfter (f : Forest) (ref c : Nat) (hT1 : ∀ q, f.prevSibling c = some q → T q)
     (hT2 : T (f.insertAfterRef ref c))
-    (hT3 : ∀ q, (f.afterOldSite c).nextSibling (f.insertAfterRef ref c) = some q → T q) :
+    (hT3 : ∀ q, (f.afterOldSite c).selfNext c
+      ((f.afterOldSite c).nextSibling (f.insertAfterRef ref c)) = some q → T q)
+    (hT4 : f.insertAfterRef ref c = c → ∀ q, (f.afterOldSite c).prevSibling c = some q → T q) :
     VStep S T f (f.insertAfter ref c).1 := by
   unfold insertAfter
   split
@@ -275,16 +288,20 @@ theorem vstep_insertAfter (f : Forest) (ref c : Nat) (hT1 : ∀ q, f.prevSibling
   split
   · exact VStep.refl f
   have h1 := vstep_removeConsolidate (S := S) f (f.prevSibling c) (f.nextSibling c) hT1
-  unfold afterOldSite insertAfterRef at hT3
+  unfold afterOldSite insertAfterRef at hT3 hT4
   unfold insertAfterRef at hT2
   cases hr : f.removeConsolidate (f.prevSibling c) (f.nextSibling c) with
   | mk f1 b1 =>
-    rw [hr] at h1 hT2 hT3
-    simp only [hr] at hT2 hT3 ⊢
+    rw [hr] at h1 hT2 hT3 hT4
+    simp only [hr] at hT2 hT3 hT4 ⊢
     generalize (if (b1 && f.nextSibling c == some ref) = true then (f.prevSibling c).getD ref else ref) = ref'
-      at hT2 hT3 ⊢
+      at hT2 hT3 hT4 ⊢
     have h2 := vstep_addConsolidate (S := S) f1 c (some ref') (f1.nextSibling ref')
-      (fun _ h => by cases h; exact hT2) hT3
+      (fun q h => by
+        unfold selfPrev at h
+        split at h
+        · rename_i e; exact hT4 (by simpa using e) q h
+        · cases h; exact hT2) hT3
     cases ha : f1.addConsolidate c (some ref') (f1.nextSibling ref') with
     | mk f2 cc =>
       rw [ha] at h2
@@ -296,13 +313,19 @@ theorem vstep_insertAfter (f : Forest) (ref c : Nat) (hT1 : ∀ q, f.prevSibling
         | mk f3 okb => rw [hc] at h3; exact vstep_res ((h1.trans h2).trans h3)
 
 theorem vstep_insertBefore (f : Forest) (ref c : Nat) (hT1 : ∀ q, f.prevSibling c = some q → T q)
-    (hT2 : T ref) (hT3 : ∀ q, (f.afterOldSite c).prevSibling ref = some q → T q) :
+    (hT2 : T ref)
+    (hT3 : ∀ q, (f.afterOldSite c).selfPrev c ((f.afterOldSite c).prevSibling ref) = some q → T q) :
     VStep S T f (f.insertBefore ref c).1 := by
   unfold insertBefore
   split
   · exact VStep.refl f
   split
   · exact VStep.refl f
+  rename_i hsr
+  have hrc : ref ≠ c := by
+    unfold siblingReferenceCheck at hsr
+    simp only [Bool.not_eq_true', Bool.not_eq_false, Bool.and_eq_true, bne_iff_ne] at hsr
+    exact hsr.1
   split
   · exact VStep.refl f
   have h1 := vstep_removeConsolidate (S := S) f (f.prevSibling c) (f.nextSibling c) hT1
@@ -312,7 +335,9 @@ theorem vstep_insertBefore (f : Forest) (ref c : Nat) (hT1 : ∀ q, f.prevSiblin
     rw [hr] at h1 hT3
     simp only at hT3 ⊢
     have h2 := vstep_addConsolidate (S := S) f1 c (f1.prevSibling ref) (some ref) hT3
-      (fun _ h => by cases h; exact hT2)
+      (fun q h => by
+        rw [selfNext_of_ne (by simpa using hrc)] at h
+        cases h; exact hT2)
     cases ha : f1.addConsolidate c (f1.prevSibling ref) (some ref) with
     | mk f2 cc =>
       rw [ha] at h2
